@@ -59,6 +59,8 @@ func runWorker(kind string) int {
 	switch kind {
 	case "c06":
 		return c06Worker()
+	case "c05cold":
+		return c05ColdWorker()
 	default:
 		return 2
 	}
